@@ -107,14 +107,19 @@ def lake_build(targets):
     return rc == 0, out + err
 
 
+def prop_modules(prop):
+    """the property's theorem files: Props/<prop>.lean and, when present, Props/<prop>b.lean (source-level theorems that depend on
+    lemmas which themselves import Props/<prop>.lean); both in namespace Hbs.<prop>"""
+    return [m for m in (prop, prop + "b") if os.path.exists(os.path.join(LEAN, "HbsModel/Props/%s.lean" % m))]
+
+
 def theorem_names(prop):
-    """Property theorems of Props/<prop>.lean (namespace Hbs.<prop>)."""
-    path = os.path.join(LEAN, "HbsModel/Props/%s.lean" % prop)
-    if not os.path.exists(path):
-        return []
-    src = open(path).read()
-    src_nc = strip_comments(src)
-    return ["Hbs.%s.%s" % (prop, m) for m in re.findall(r"^theorem\s+([A-Za-z0-9_'.]+)", src_nc, re.M)]
+    """Property theorems of Props/<prop>.lean [+ Props/<prop>b.lean] (namespace Hbs.<prop>)."""
+    names = []
+    for m in prop_modules(prop):
+        src_nc = strip_comments(open(os.path.join(LEAN, "HbsModel/Props/%s.lean" % m)).read())
+        names += ["Hbs.%s.%s" % (prop, t) for t in re.findall(r"^theorem\s+([A-Za-z0-9_'.]+)", src_nc, re.M)]
+    return names
 
 
 def strip_comments(src):
@@ -170,7 +175,8 @@ def audit_axioms(prop):
     os.makedirs(os.path.join(WORK, prop), exist_ok=True)
     tmp = os.path.join(WORK, prop, "Axioms.lean")
     with open(tmp, "w") as f:
-        f.write("import HbsModel.Props.%s\n" % prop)
+        for m in prop_modules(prop):
+            f.write("import HbsModel.Props.%s\n" % m)
         for n in names:
             f.write("#print axioms %s\n" % n)
     rc, out, err = run(["lake", "env", "lean", tmp], cwd=LEAN)
